@@ -54,10 +54,10 @@ Qed.
 Lemma call_ref_not_none e : is_call e = true -> is_rnone (ref_of_exp e) = false.
 Proof. destruct e; cbn; intros H; try discriminate; reflexivity. Qed.
 
-Lemma local_vars_ent b : forall es ns ls lc,
+Lemma local_vars_ent b il : forall es ns ls lc,
   length ns = length ls ->
   ((es = [] /\ is_rnone lc = negb b) \/ (es <> [] /\ b = lastc es)) ->
-  map ent (local_vars es (combine ns ls) lc) = combine (combine ns ls) (emp es ns b).
+  map ent (local_vars es (combine ns ls) lc il) = combine (combine ns ls) (emp es ns b).
 Proof.
   induction es as [|e es' IH]; intros ns ls lc Hlen Hb.
   - destruct Hb as [[_ Hb]|[Hb _]]; [|congruence]. cbn [local_vars].
@@ -72,9 +72,9 @@ Proof.
     + right. split; [discriminate|]. rewrite Hb. apply lastc_cons. discriminate.
 Qed.
 
-Lemma local_env ns ls es :
+Lemma local_env ns ls es il :
   length ns = length ls ->
-  map ent (rev (local_vars es (combine ns ls) RNone)) = rev (combine (combine ns ls) (local_empties ns es)).
+  map ent (rev (local_vars es (combine ns ls) RNone il)) = rev (combine (combine ns ls) (local_empties ns es)).
 Proof.
   intros Hlen. rewrite map_rev. f_equal. unfold local_empties. fold (lastc es).
   rewrite (index_map_emp es (lastc es) ns O). cbn [skipn].
@@ -206,27 +206,17 @@ Proof.
     apply in_b4f in Hy. destruct Hy as (o0 & Ho0 & Hr). exists e, o0. split; [eapply nth_error_In; eauto|auto].
 Qed.
 
-(* occurrences of a local statement: an occurrence of initialiser i (with what the absence of tags means) or a
-   declared name *)
-Definition prot (ns : list (list N)) (i : nat) (e : exp) (n : list N) : bool :=
-  (Nat.eqb (count_name n ns) 1) && beq_bytes (nth i ns []) n
-  && (match ref_of_exp e with RNone => false | _ => true end).
-
+(* occurrences of a local statement: an occurrence of initialiser i or a declared name *)
 Lemma in_b_local flv slv reg ns ls at_ es l en o :
   In o (snd (b_stat flv slv reg (SLocal ns ls at_ es l) en)) ->
-  (exists i e o0, nth_error es i = Some e /\ In o0 (b_exp flv slv reg e en) /\ retag o0 o /\
-                  (s_cls o = [] -> outer_use en o0 = true -> name_in (s_name o0) ns = true ->
-                                   prot ns i e (s_name o0) = true)) \/
+  (exists i e o0, nth_error es i = Some e /\ In o0 (b_exp flv slv reg e en) /\ retag o0 o) \/
   (exists nl b, In (nl, b) (combine (combine ns ls) (local_empties ns es)) /\ o = decl_occ en flv slv reg b nl).
 Proof.
   cbn [b_stat snd]. intros H. apply in_app_or in H. destruct H as [H|H].
   - left. apply in_concat_index_map in H. destruct H as (k & eo & Hk & Hy).
     apply nth_error_map_some in Hk. destruct Hk as (e & Hk & E). subst eo. cbn [fst snd plus] in Hy.
-    unfold tag_local_init in Hy. apply in_tag_if in Hy. destruct Hy as (o0 & H0 & R0 & C0).
-    exists k, e, o0. split; [exact Hk|]. split; [exact H0|]. split; [exact R0|].
-    intros Hc Hou Hnm.
-    pose proof (C0 Hc) as C0'. destruct R0 as (_ & _ & _ & _ & _ & _ & E0). pose proof (E0 Hc) as E. subst o0.
-    rewrite Hou, Hnm in C0'. cbn [andb] in C0'. apply negb_false_iff in C0'. exact C0'.
+    unfold tag_local_init in Hy.
+    exists k, e, o. split; [exact Hk|]. split; [exact Hy|apply retag_refl].
   - right. apply in_map_iff in H. destruct H as ([nl b] & E & Hin). cbn [fst snd] in E. eauto.
 Qed.
 
@@ -267,7 +257,10 @@ Definition opm (l : loc) (ms : list mark) : Prop := In (MOpen l) ms /\ In (MClos
 Definition refm (r : refexp) (ms : list mark) : Prop :=
   match r with RNone => True | RFunc l | RCall l => opm l ms | RName l => idm l ms end.
 Definition scm (ms : list mark) (x : scope) : Prop := opm (scope_loc x) ms.
-Definition vm (ms : list mark) (v : ventry) : Prop := idm (v_loc v) ms /\ refm (v_ref v) ms.
+(* the initialiser region of a declared variable is marked, and the variable has no table exemption (fragment) *)
+Definition initm (v : ventry) (ms : list mark) : Prop :=
+  v_tab v = None /\ match v_init v with Some il => opm il ms | None => True end.
+Definition vm (ms : list mark) (v : ventry) : Prop := idm (v_loc v) ms /\ refm (v_ref v) ms /\ initm v ms.
 
 Lemma idm_mono l ms ms' : incl ms ms' -> idm l ms -> idm l ms'.
 Proof. intros H [A B]. split; apply H; assumption. Qed.
@@ -278,7 +271,10 @@ Proof. intros H. destruct r; cbn; auto; try apply opm_mono; try apply idm_mono; 
 Lemma scm_mono ms ms' l : incl ms ms' -> Forall (scm ms) l -> Forall (scm ms') l.
 Proof. intros H. apply Forall_impl. intros x. apply opm_mono. exact H. Qed.
 Lemma vm_mono ms ms' l : incl ms ms' -> Forall (vm ms) l -> Forall (vm ms') l.
-Proof. intros H. apply Forall_impl. intros x [A B]. split; [eapply idm_mono|eapply refm_mono]; eauto. Qed.
+Proof.
+  intros H. apply Forall_impl. intros x [A [B [C D]]]. split; [eapply idm_mono; eauto|]. split; [eapply refm_mono; eauto|].
+  split; [exact C|]. destruct (v_init x) as [il|]; [|exact I]. eapply opm_mono; eauto.
+Qed.
 
 Lemma ref_marks e : refm (ref_of_exp e) (m2_exp e).
 Proof.
@@ -297,22 +293,30 @@ Proof. split; [left; reflexivity|right; left; reflexivity]. Qed.
 Lemma plain_vars_vm ns ls ms : incl (flat_map id_marks ls) ms -> Forall (vm ms) (plain_vars ns ls).
 Proof.
   intros H. unfold plain_vars. apply Forall_forall. intros v Hv. apply in_map_iff in Hv. destruct Hv as ([n l] & E & Hin).
-  subst v. split; [|exact I]. cbn [v_loc snd]. apply in_combine_r in Hin.
+  subst v. split; [|split; [exact I|split; [reflexivity|exact I]]]. cbn [v_loc snd]. apply in_combine_r in Hin.
   eapply idm_mono; [|apply id_marks_idm]. intros y Hy. apply H. apply in_flat_map. eauto.
 Qed.
 
-Lemma local_vars_vm ms : forall es nls lc,
-  (forall e, In e es -> incl (m2_exp e) ms) -> refm lc ms -> (forall nl, In nl nls -> idm (snd nl) ms) ->
-  Forall (vm ms) (local_vars es nls lc).
+Lemma frag_tab e : frag_exp e = true -> tab_of_exp e = None.
+Proof. destruct e; cbn; intros H; try reflexivity; discriminate. Qed.
+
+Lemma local_vars_vm ms il : forall es nls lc,
+  (forall e, In e es -> incl (m2_exp e) ms) -> (forall e, In e es -> tab_of_exp e = None) ->
+  match il with Some i => opm i ms | None => True end ->
+  refm lc ms -> (forall nl, In nl nls -> idm (snd nl) ms) ->
+  Forall (vm ms) (local_vars es nls lc il).
 Proof.
-  induction es as [|e r IH]; intros nls lc He Hlc Hn; cbn [local_vars].
+  induction es as [|e r IH]; intros nls lc He Ht Hil Hlc Hn; cbn [local_vars].
   - apply Forall_forall. intros v Hv. apply in_map_iff in Hv. destruct Hv as (nl & E & Hin). subst v.
-    split; [apply Hn; exact Hin|exact Hlc].
+    split; [apply Hn; exact Hin|]. split; [exact Hlc|]. split; [reflexivity|exact Hil].
   - destruct nls as [|[n nl] nls']; [constructor|]. constructor.
-    + split; [apply (Hn (n, nl)); left; reflexivity|]. cbn [v_ref].
-      eapply refm_mono; [apply He; left; reflexivity|apply ref_marks].
+    + split; [apply (Hn (n, nl)); left; reflexivity|]. cbn [v_ref]. split.
+      * eapply refm_mono; [apply He; left; reflexivity|apply ref_marks].
+      * split; [cbn [v_tab]; apply Ht; left; reflexivity|exact Hil].
     + apply IH.
       * intros e' He'. apply He. right. exact He'.
+      * intros e' He'. apply Ht. right. exact He'.
+      * exact Hil.
       * destruct e; try exact I. eapply refm_mono; [apply He; left; reflexivity|apply ref_marks].
       * intros nl0 H0. apply Hn. right. exact H0.
 Qed.
@@ -324,6 +328,9 @@ Proof.
   rewrite Forall_forall in H. pose proof (H x Hx) as Hx'. rewrite Forall_forall in Hx'.
   eapply opm_mono; [apply incl_flat_map_in; exact Hx|apply Hx'; exact Hs].
 Qed.
+
+Lemma incl_region_marks o ms : incl ms (region_marks o ms).
+Proof. destruct o as [il|]; cbn [region_marks]; [|apply incl_refl]. intros y Hy. right. apply in_or_app. left. exact Hy. Qed.
 
 Lemma incl_cons_app_mid {X} (x : X) a b c : incl b (x :: a ++ b ++ c).
 Proof. intros y Hy. right. apply in_or_app. right. apply in_or_app. left. exact Hy. Qed.
@@ -388,10 +395,14 @@ Proof.
     cbn [flat_map sk_exp app]. constructor; [|constructor].
     split; cbn [scope_loc]; [left; reflexivity|]. right. do 3 (apply in_or_app; right). left. reflexivity.
   - (* local *)
-    intros ns ls at_ es l _ Hlen _ _ IHes. cbn [sk_stat m2_stat fst snd]. split.
-    + eapply scm_mono; [|apply Forall_flat_map_scm; exact IHes]. apply incl_appr. apply incl_refl.
+    intros ns ls at_ es l _ Hlen _ Hces IHes. cbn [sk_stat m2_stat fst snd]. split.
+    + eapply scm_mono; [|apply Forall_flat_map_scm; exact IHes]. apply incl_appr. apply incl_region_marks.
     + apply Forall_rev. apply local_vars_vm.
-      * intros e He. apply incl_appr. apply incl_flat_map_in. exact He.
+      * intros e He. apply incl_appr. eapply incl_tran; [|apply incl_region_marks]. apply incl_flat_map_in. exact He.
+      * intros e He. apply frag_tab. rewrite Forall_forall in Hces. exact (proj1 (Hces e He)).
+      * destruct (init_loc ns ls es l) as [il|]; [|exact I]. cbn [region_marks]. split.
+        -- apply in_or_app. right. left. reflexivity.
+        -- apply in_or_app. right. right. apply in_or_app. right. left. reflexivity.
       * exact I.
       * intros [n nl] Hin. cbn [snd]. apply in_combine_r in Hin.
         eapply idm_mono; [|apply id_marks_idm]. apply incl_appl. apply incl_flat_map_in. exact Hin.
@@ -399,7 +410,7 @@ Proof.
     intros n nl f ps pl b lf va l _ _ IH. cbn [sk_stat m2_stat fst snd sk_exp ref_of_exp]. split.
     + constructor; [|constructor]. split; cbn [scope_loc]; [left; reflexivity|].
       right. do 3 (apply in_or_app; right). left. reflexivity.
-    + constructor; [|constructor]. split; cbn [v_loc v_ref refm].
+    + constructor; [|constructor]. split; [|split; [|split; [reflexivity|exact I]]]; cbn [v_loc v_ref refm].
       * split; right; apply in_or_app; left; [left; reflexivity|right; left; reflexivity].
       * split; [left; reflexivity|]. right. do 3 (apply in_or_app; right). left. reflexivity.
   - (* block *)
@@ -413,8 +424,7 @@ Proof.
     + apply Forall_forall. intros v Hv. apply in_concat in Hv. destruct Hv as (vs & Hvs & Hv).
       apply in_rev in Hvs. apply in_map_iff in Hvs. destruct Hvs as (s & E & Hs). subst vs.
       rewrite Forall_forall in IHss. destruct (IHss s Hs) as [_ Hvm]. rewrite Forall_forall in Hvm.
-      destruct (Hvm v Hv) as [A B].
       assert (Hi : incl (m2_stat s) (flat_map m2_stat ss ++ match ret with Some es => flat_map m2_exp es | None => [] end)).
       { apply incl_appl. apply incl_flat_map_in. exact Hs. }
-      split; [eapply idm_mono|eapply refm_mono]; eauto.
+      pose proof (vm_mono _ _ [v] Hi (Forall_cons _ (Hvm v Hv) (Forall_nil _))) as Hv1. inversion Hv1; assumption.
 Qed.
